@@ -31,6 +31,7 @@ func init() {
 		runRepoProps(r, "C11")
 		r.rule += "; plus refresh scenarios with lists that carry no cRLNumber (v1, v2 without the extension), the same thisUpdate or the same number"
 		c11Numberless(r, "C11")
+		c11Confusables(r)
 	})
 	register("C16", func(r *Run) { runRepoProps(r, "C16") })
 }
@@ -121,6 +122,10 @@ func runRepoProps(r *Run, focus string) {
 			{Kind: "hs", Issuer: 7, Serial: 13, CDP: 1, Cands: []int{1}}}, false},
 		// lenient mode, CDP with only an unsupported scheme
 		{repoCfg{"verify", "actively", false, true}, []repoOp{{Kind: "hs", Issuer: 7, Serial: 10, CDP: 4, Cands: []int{1}}}, false},
+		// lenient / strict, a distribution point whose URL cannot be parsed (alone, and next to a usable one)
+		{repoCfg{"verify", "actively", false, true}, []repoOp{{Kind: "hs", Issuer: 7, Serial: 10, CDP: 6, Cands: []int{1}}, {Kind: "hs", Issuer: 7, Serial: 10, CDP: 7, Cands: []int{1}}}, false},
+		{repoCfg{"none", "background", false, false}, []repoOp{{Kind: "hs", Issuer: 7, Serial: 10, CDP: 7, Cands: []int{1}}, {Kind: "tick"}, {Kind: "hs", Issuer: 8, Serial: 11, CDP: 6, Cands: []int{3}}, {Kind: "tick"}}, false},
+		{repoCfg{"verify", "actively", true, false}, []repoOp{{Kind: "hs", Issuer: 7, Serial: 10, CDP: 6, Cands: []int{1}}, {Kind: "hs", Issuer: 7, Serial: 10, CDP: 7, Cands: []int{1}}}, false},
 		// none/verify_log with an unverifiable signer must still refresh; provisioning of a configured CRL
 		{repoCfg{"none", "actively", false, true}, []repoOp{
 			{Kind: "serve", Loc: 11, Served: "doc", Doc: &repoDoc{Signer: 9, Number: 904, Serials: []int64{10}}},
